@@ -1,6 +1,5 @@
 import json
 import os
-from pathlib import Path
 
 from pyopenapi_gen import IRSpec
 from pyopenapi_gen.context.render_context import RenderContext
@@ -82,23 +81,13 @@ class ExceptionsEmitter:
             client_package_name: Dotted package name of the client being generated
 
         Returns:
-            True if the core package is outside the immediate client package
+            True if other clients may use (or later come to use) this core package
         """
-        # If overall_project_root is set and different from the core dir's parent,
-        # we're in a shared core scenario
-        if self.overall_project_root:
-            core_path = Path(core_dir).resolve()
-            project_root = Path(self.overall_project_root).resolve()
-            # Check if there are other client directories at the same level
-            parent_dir = core_path.parent
-            if parent_dir == project_root or parent_dir.parent == project_root:
-                return True
-            # Deeper layouts (e.g. core_package="shared.x.core"): the core is shared whenever it
-            # lives outside the package of the client being generated
-            if client_package_name:
-                client_dir = project_root.joinpath(*client_package_name.split("."))
-                return client_dir != core_path and client_dir not in core_path.parents
-        return False
+        # A core below a known project root may serve several clients: it can live outside every client
+        # package (core_package="shared.core", at any depth), or be embedded in the package of the first
+        # client and re-used by later ones (core_package="billing.core"). The registry is kept for all of
+        # them, so that a client generated later never drops the exception classes of an earlier one.
+        return bool(self.overall_project_root)
 
     def _update_registry(self, registry_path: str, client_name: str, status_codes: list[int]) -> list[int]:
         """Update the exception registry with this client's status codes.
